@@ -3,6 +3,7 @@ package main
 import (
 	"go/ast"
 	"go/token"
+	"strconv"
 	"strings"
 )
 
@@ -236,6 +237,50 @@ func factsStores() {
 	})
 	emitStr("storesLimitErrorStatus", "pkg/store/limiter.go limitError.GRPCStatus: the status of a violated limit", limStatus)
 	emitStr("storesLimiterCond", "pkg/store/limiter.go Limiter.ReserveWithType: the reservation and its test", limCond)
+
+	// ---- C07 / C08: the TSDB store keeps one copy of its external labels, and every call reads it
+	var fields []string
+	if tsdbf != nil {
+		for _, d := range tsdbf.Decls {
+			gd, ok := d.(*ast.GenDecl)
+			if !ok || gd.Tok != token.TYPE {
+				continue
+			}
+			for _, sp := range gd.Specs {
+				ts, ok := sp.(*ast.TypeSpec)
+				if !ok || ts.Name.Name != "TSDBStore" {
+					continue
+				}
+				if st, ok := ts.Type.(*ast.StructType); ok {
+					for _, f := range st.Fields.List {
+						if len(f.Names) == 0 {
+							fields = append(fields, text(f.Type))
+						}
+						for _, n := range f.Names {
+							fields = append(fields, n.Name)
+						}
+					}
+				}
+			}
+		}
+	}
+	emitList("storesTSDBStoreFields", "pkg/store/tsdb.go TSDBStore: its fields (extLsetAsLabelSets is the only copy of the external labels)", fields)
+	var readers []string
+	for _, name := range []string{"Series", "LabelNames", "LabelValues"} {
+		b := body(fn(tsdbf, "TSDBStore", name))
+		n := len(calls(b, "getExtLset"))
+		direct := 0
+		if b != nil {
+			ast.Inspect(b, func(x ast.Node) bool {
+				if se, ok := x.(*ast.SelectorExpr); ok && se.Sel.Name == "extLsetAsLabelSets" {
+					direct++
+				}
+				return true
+			})
+		}
+		readers = append(readers, name+": getExtLset x"+strconv.Itoa(n)+", extLsetAsLabelSets x"+strconv.Itoa(direct))
+	}
+	emitList("storesTSDBStoreExtReads", "pkg/store/tsdb.go TSDBStore.Series / LabelNames / LabelValues: how often the current external labels are read", readers)
 
 	// ---- C07: the block pre-filter of LabelNames / LabelValues
 	overlap := "unknown"
